@@ -229,13 +229,32 @@ ProbeGroups(s) == LET P == ProbesOf(s) IN
                                [cls |-> ProbeClasses[i], pts |-> SX!SetToSeq({p \in P : ProbeClass(s, p) = ProbeClasses[i]})]],
                             LAMBDA g : g.pts # <<>>)
 
+(* obstacles for get_obstacles / map_obstacles_to_lanelets / filter_obstacles_in_network: [id, role, t0, occ] with   *)
+(* occ[i] the region occupied at time step t0 + i - 1 (static: the same region at every time step)                     *)
+DiscS(c, r) == [k |-> "disc", c |-> c, r |-> r]
+GroupS(ms)  == [k |-> "group", ms |-> ms]
+Ob(id, role, t0, occ) == [id |-> id, role |-> role, t0 |-> t0, occ |-> occ]
+ObstacleTable ==
+  <<Ob(31, "static", 0, <<RectS(<<1, 1>>, 1, 1, Id)>>),                                                  \* the cell [0,1]x[0,1]
+    Ob(32, "dynamic", 0, <<RectS(<<-2, 3>>, 2, 1, Id), RectS(<<2, 3>>, 2, 1, Id), RectS(<<6, 3>>, 2, 1, Id)>>),
+    Ob(33, "dynamic", 0, <<DiscS(<<5, -7>>, 4), DiscS(<<5, -3>>, 4), DiscS(<<5, 1>>, 4)>>),              \* approaches y = 0: 1.75 r, 0.75 r, inside
+    Ob(34, "static", 0, <<[k |-> "poly", v |-> <<<<8, 0>>, <<12, 0>>, <<8, 4>>>>]>>),
+    Ob(35, "setbased", 0, <<RectS(<<3, 3>>, 1, 1, Id),
+                            GroupS(<<RectS(<<3, 3>>, 1, 1, Id), RectS(<<7, 5>>, 1, 1, Id)>>),
+                            GroupS(<<RectS(<<5, 3>>, 1, 1, Id), DiscS(<<9, 3>>, 2)>>)>>),
+    Ob(36, "dynamic", 1, <<RectS(<<3, 1>>, 1, 1, Id), RectS(<<5, 1>>, 1, 1, Id)>>),                      \* appears at time step 1
+    Ob(37, "static", 0, <<DiscS(<<2, -3>>, 4)>>),                                                        \* 0.75 r below y = 0
+    Ob(38, "static", 0, <<RectS(<<9, 4>>, 2, 1, <<0, 1, 1>>)>>),
+    Ob(39, "setbased", 0, <<DiscS(<<1, 5>>, 2), DiscS(<<3, 5>>, 2), DiscS(<<7, 1>>, 4)>>)>>
+
 (* one FAMILY record per family at its initial state, one ROUTE record per completed route sequence, the SHAPE table once *)
 EmitFamily == PrintT(<<"CASE", ToJson([kind |-> "family", fam |-> fam, lanelets |-> Family(fam), net |-> FamNet(fam),
-                                        points |-> PointGroups(FamNet(fam)), shapes |-> ShapeQueries(FamNet(fam))])>>)
+                                        points |-> PointGroups(FamNet(fam)), shapes |-> ShapeQueries(FamNet(fam)),
+                                        obstacles |-> ObstacleTable, cuts |-> Cuts])>>)
 EmitShapes == \A i \in DOMAIN ShapeTable :       \* (mentions a variable: a constant-level definition would be evaluated, and printed, at every start-up)
                  PrintT(<<"CASE", ToJson([kind |-> "shape", name |-> ShapeTable[i].name, shape |-> ShapeTable[i].shape,
                                           probes |-> ProbeGroups(ShapeTable[i].shape), mode |-> mode])>>)
-EmitRoute  == PrintT(<<"CASE", ToJson([kind |-> "route", fam |-> fam, routes |-> hist, polys |-> AsNet(polys), cuts |-> Cuts])>>)
+EmitRoute  == PrintT(<<"CASE", ToJson([kind |-> "route", fam |-> fam, routes |-> hist, polys |-> AsNet(polys)])>>)
 Emit == /\ mode = "new" => EmitFamily
         /\ mode = "ready" => EmitRoute
 EmitS == (mode = "new" /\ fam = CHOOSE f \in Fams : TRUE) => EmitShapes
